@@ -22,7 +22,7 @@ import (
 // answered {ok, 503, 404} (an exhaustive product); after each refresh every user is asked about.
 // Oracle: an answer given without an error is the directory's own (transitive) membership answer — a
 // refresh during which a nested listing failed must not leave a partial member set behind as if it
-// were the whole group. Two more directory shapes (every listing succeeding) have a group reachable along
+// were the whole group. Listings come in pages of two members. Two more directory shapes (every listing succeeding) have a group reachable along
 // two paths of different length, one of which reaches it exactly at the depth limit of the walk.
 
 type nestedDir struct {
@@ -80,11 +80,24 @@ func (d *nestedDir) RoundTrip(r *http.Request) (*http.Response, error) {
 		case "404":
 			return fail(404)
 		}
+		// the directory answers in pages of two members (far fewer than the page size asked for), naming the
+		// next page while there is one
+		all := d.members[group]
+		start := 0
+		fmt.Sscanf(r.URL.Query().Get("pageToken"), "page-at-%d", &start)
+		end := start + 2
+		if end > len(all) {
+			end = len(all)
+		}
 		var ms []string
-		for _, m := range d.members[group] {
+		for _, m := range all[start:end] {
 			ms = append(ms, fmt.Sprintf(`{"email":%q,"type":%q}`, m[0], m[1]))
 		}
-		return respond(200, `{"kind":"admin#directory#members","members":[`+strings.Join(ms, ",")+`]}`)
+		next := ""
+		if end < len(all) {
+			next = fmt.Sprintf(`,"nextPageToken":"page-at-%d"`, end)
+		}
+		return respond(200, `{"kind":"admin#directory#members","members":[`+strings.Join(ms, ",")+`]`+next+`}`)
 	case "hasMember":
 		user, _ := url.PathUnescape(parts[gi+3])
 		in := d.isMember(group, user, 0)
